@@ -197,7 +197,7 @@ SPECS = ("%s", "%d", "%5.2f", "%x", "%c", "%r", "%%", "%*d", "%.*f", "%(a)s", "%
 ARGS: Tuple[Any, ...] = (
     1, "s", 1.5, None, b"b", "xy", "", b"",
     (), (1,), ("s",), (1, "s"), (1, 2), (1, 2, 3), (b"b",), (1.5, 2), ("",), ("s", ""),
-    {}, {"a": 1}, {"a": "s"}, {"a": 1, "b": "s"}, {"b": 1}, {b"a": 1}, {b"a": 1, b"b": b"x"}, {1: "x"}, {"c": 1},
+    {}, {"a": 1}, {"a": "s"}, {"a": 1, "b": "s"}, {"b": 1}, {b"a": 1}, {b"a": 1, b"b": b"x"}, {1: "x"}, {"c": 1}, {b"\xff": b"x"}, {"\xff": "x"},
 )
 
 
@@ -210,8 +210,9 @@ def templates() -> Iterator[Any]:
     for a, b in itertools.product(SPECS, repeat=2):
         yield a + " " + b
     yield from ("%", "%z", "%(a", "100%", "%5", "%(a)s %s", "%(a)*d", "%s %(a)s", "%\n", "%s\n")
+    yield "%(\xff)s"  # a mapping key that is not ASCII (as bytes: b"%(\xff)s")
 
 
 def both_kinds(t: str) -> Iterator[Any]:
     yield t
-    yield t.encode("ascii")
+    yield t.encode("latin-1")  # every template of the domain is ASCII except the one with the key \xff
